@@ -255,6 +255,18 @@ def correspondence(ctx):
                     % (names, rows))})
                 break
     kinds += n_forms
+    # the same numpy.dtype OBJECT used for two constructions: same class both times (known finding numpy-dtype-reused on the pinned tree)
+    for names in (("px", "py", "pz", "E"), ("pt", "phi"), ("x", "y", "z"), ("pt", "phi", "eta", "mass")):
+        dt = numpy.dtype([(n_, numpy.float64) for n_ in names])
+        row = [tuple(1.0 + j for j in range(len(names)))]
+        try:
+            a1, a2 = vector.array(row, dtype=dt), vector.array(row, dtype=dt)
+            if type(a1) is not type(a2):
+                dis.append(f"numpy-dtype-reused: vector.array with the same dtype object {names} twice: {type(a1).__name__} then {type(a2).__name__}")
+                fails.append({"key": "numpy-dtype-reused", "what": dis[-1], "code": None})
+                break
+        except Exception as e:  # noqa: BLE001
+            dis.append(f"vector.array(records, dtype=<dtype object {names}>) raises {type(e).__name__}")
     kinds_dist = {}
     for a in reals:
         kinds_dist[a.split()[0]] = kinds_dist.get(a.split()[0], 0) + 1
